@@ -479,22 +479,34 @@ def read_paths_case(rng, driver, rep):
     # numerical one); component j >= 3 carries i + j
     sold = rng.choice([SOLD, SOLD, 13])
 
+    # the extra field may be declared in a NARROWER float type than the archive's (a float32 extra in a float64 archive)
+    evdt = np.dtype("float32") if rng.random() < 0.4 else dt
+
     def enc(i):
         return {"solution": np.array([i, i + 0.5, -i] + [i + j for j in range(3, sold)], dtype=dt), "objective": np.array(i, dtype=dt),
-                "measures": None, "ev": np.array([i, i + 0.25], dtype=dt)}
+                "measures": None, "ev": np.array([i, i + 0.25], dtype=evdt)}
     if kind == "store":
-        obj = ArrayStore({"solution": ((sold,), dt), "objective": ((), dt), "ev": ((2,), dt)}, cap)
+        obj = ArrayStore({"solution": ((sold,), dt), "objective": ((), dt), "ev": ((2,), evdt)}, cap)
     elif kind == "grid":
         cap = 12
-        obj = GridArchive(solution_dim=sold, dims=[4, 3], ranges=[(0, 1), (0, 1)], dtype=dt, extra_fields={"ev": ((2,), dt)})
+        obj = GridArchive(solution_dim=sold, dims=[4, 3], ranges=[(0, 1), (0, 1)], dtype=dt, extra_fields={"ev": ((2,), evdt)})
     else:
         cap = 6
-        obj = CVTArchive(solution_dim=sold, cells=6, ranges=[(0, 1), (0, 1)], dtype=dt, extra_fields={"ev": ((2,), dt)},
+        obj = CVTArchive(solution_dim=sold, cells=6, ranges=[(0, 1), (0, 1)], dtype=dt, extra_fields={"ev": ((2,), evdt)},
                          custom_centroids=np.array([[0.1, 0.1], [0.5, 0.1], [0.9, 0.1], [0.1, 0.9], [0.5, 0.9], [0.9, 0.9]], dtype=dt))
+
+    def warm_reads():
+        """reads whose results are thrown away (a read path that remembers what it returned must not serve it again after the contents changed)"""
+        if rng.random() < 0.35:
+            obj.data(return_type="pandas")
+            obj.data()
+            obj.data("objective")
+            list(iter(obj))
     with warnings.catch_warnings():
         warnings.simplefilter("ignore")
-        for _ in range(nops):
-            if rng.random() < 0.12:
+        for k_op in range(nops):
+            warm_reads()
+            if rng.random() < 0.12 or (k_op == nops - 1 and rng.random() < 0.15):
                 obj.clear()
                 ops.append([1])
                 continue
@@ -550,6 +562,19 @@ def read_paths_case(rng, driver, rep):
     paths["iterelites"] = [[int(e["index"]), dec_row({f: e[f] for f in fields})] for e in df.iterelites()]
     cols = [[int(x) for x in df["index"]], [int(x) for x in df["objective"]]]
     paths["pandas"] = [[i, o] for i, o in zip(*cols)]
+    if kind != "store" and len(d["index"]):
+        # retrieve() / retrieve_single() of the stored elites' own measures: the same elites, with the declared dtypes
+        occ, rd = obj.retrieve(d["measures"])
+        got = [[int(rd["index"][k]), dec_row({f: rd[f][k] for f in fields})] for k in range(len(d["index"]))]
+        r_ok = all(rd[f].dtype == declared[f] for f in fields + ["measures"]) and rd["index"].dtype == np.int32
+        o1, r1 = obj.retrieve_single(d["measures"][0])
+        r_ok &= all(np.asarray(r1[f]).dtype == declared[f] for f in fields + ["measures"])
+        rep.count("readpaths_retrieve")
+        if got != paths["dict"] or not bool(np.all(occ)) or not r_ok:
+            rep.violation("retrieve() of the stored elites' own measures %s" % ("does not return the declared dtypes (%s, declared %s)" % (
+                {f: str(rd[f].dtype) for f in fields}, {f: str(declared[f]) for f in fields}) if (got == paths["dict"] and bool(np.all(occ))) else "presents other elites than data()"),
+                {"kind": "oracle", "case": {"readpaths": kind, "dtype": dt.name, "ev_dtype": evdt.name, "cap": cap, "ops": ops}, "retrieve": got, "data": paths["dict"],
+                 "dtypes": {f: str(rd[f].dtype) for f in fields}, "theorems_at_stake": ["C12_read_paths_agree"]}, True, {"kind": "read-paths-disagree", "path": "retrieve"})
     # what get_field / iterelites hand out are copies: writing into them changes neither the frame nor what a second call returns
     from c12_util import canon
     df_before = canon(df)
